@@ -70,6 +70,7 @@ type Exec struct {
 	inInit       bool
 	knownTerms   map[*Term]*Term
 	feasCache    map[*Term]bool
+	abstractFns  map[string]bool
 	symLoopBound int
 	maxSymUnroll int
 	feasQueries  int
@@ -104,6 +105,7 @@ func NewExec(prog *ssa.Program, pkg *ssa.Package) *Exec {
 		absCache: map[string]*Term{}, maxDepth: 40, loopLimit: 80, loopInfo: map[*ssa.Function]*loops{},
 		invariants: map[string]*LoopSpec{}, knownTerms: map[*Term]*Term{}}
 	ex.symLoopBound = 3
+	ex.abstractFns = map[string]bool{"escapeQuote": true, "stringBytes": true, "unescape": true, "byteInsertAt": true}
 	curExec = ex
 	return ex
 }
@@ -386,6 +388,9 @@ func (ex *Exec) store(st *State, p *PtrVal, v Value, pos token.Pos) {
 		g := And(st.pc, al.C)
 		if g == TFalse {
 			continue
+		}
+		if al.O.readonly {
+			panic(unsupported("in-place mutation of a byte slice at " + ex.pos(pos)))
 		}
 		fn := ""
 		if len(ex.stack) > 0 {
